@@ -295,7 +295,9 @@ pub fn gen(prop: &str, seed: u64) -> Plan {
             p.property = "C17".into();
             // clean restarts while sync is under way: afterwards a stored matched-blocks record is
             // not in memory until the filter timer recovers it (or something discards it)
-            if mix(&[seed, 0xc17f]) % 2 == 0 {
+            // (not in the histories built around a reorg the client notices: a restart in front
+            // of it would leave nothing to roll back)
+            if mix(&[seed, 0xc17f]) % 2 == 0 && seed % 6 != 1 {
                 let span = p.actions.iter().map(|a| a.at).max().unwrap_or(60_000).max(20_000);
                 for j in 0..(1 + mix(&[seed, 0xc180]) % 3) {
                     let at = 4_000 + mix(&[seed, 0xc181, j]) % (span * 2 / 3);
@@ -921,6 +923,13 @@ fn gen_c10(seed: u64) -> Plan {
         for _ in 0..b.rng.range(1, 4) {
             let at = b.rng.range(4_000, until);
             add(&mut b.plan, at, Action::Inject { peer: attacker, spec: InjectSpec { seed: b.rng.next_u64(), kind: 103 } });
+        }
+    }
+    if mix(&[seed, 0x105]) % 3 == 0 {
+        // genuine filter hashes pushed from boundary start numbers while the caches fill
+        for j in 0..(3 + mix(&[seed, 0x106]) % 10) {
+            let at = 4_000 + mix(&[seed, 0x107, j]) % until.max(1);
+            add(&mut b.plan, at, Action::Inject { peer: attacker, spec: InjectSpec { seed: mix(&[seed, 0x108, j]), kind: 105 } });
         }
     }
     if mix(&[seed, 0x10e]) % 2 == 0 {
